@@ -44,6 +44,8 @@ impl LocalKey {
         use digest::Mac;
 
         let (ek, n2) = kdf::<U48>(&self.0, b"paseto-encryption-key", nonce).split();
+        #[cfg(paseto_verif)]
+        let n2 = paseto_core::verif::iv16("v3.local", n2.into()).into();
         let ak: GenericArray<u8, U48> = kdf(&self.0, b"paseto-auth-key-for-aead", nonce);
 
         let cipher = ctr::Ctr64BE::<aes::Aes256>::new(&ek, &n2);
